@@ -114,6 +114,12 @@ REFUSALS = [
     ("three-fields", "subscription { sub { n } other nores }", "asyncio", None, {}, (1, 1, 1, 1, 3, 1, 1)),
     ("several-through-fragment", "subscription { sub { n } ...F }\nfragment F on Subscription { other }", "asyncio", None, {},
      (1, 1, 1, 1, 2, 1, 1)),
+    ("several-in-one-spread", "subscription { ...Both }\nfragment Both on Subscription { sub { n } other }", "asyncio", None, {},
+     (1, 1, 1, 1, 2, 1, 1)),
+    ("several-in-one-inline", "subscription { ... on Subscription { sub { n } other } }", "asyncio", None, {},
+     (1, 1, 1, 1, 2, 1, 1)),
+    ("several-in-nested-fragments", "subscription { ... { ...A } }\nfragment A on Subscription { sub { n } ...B }\nfragment B on Subscription { other }", "asyncio", None, {},
+     (1, 1, 1, 1, 2, 1, 1)),
     ("no-fields", "subscription { sub @skip(if: true) { n } }", "asyncio", None, {}, (1, 1, 1, 1, 0, 1, 1)),
     ("no-resolver", "subscription { nores }", "asyncio", None, {}, (1, 1, 1, 1, 1, 1, 0)),
     ("undefined-field", "subscription { zzz }", "asyncio", None, {}, (1, 1, 1, 1, 1, 0, 0)),
